@@ -21,7 +21,7 @@ func (x *executor) calFun(name string, day *T) *T {
 	return app(name, "Int", day)
 }
 
-func (x *executor) timeIntrinsic(m *machine, fr *frame, in ssa.Instruction, res ssa.Value, key string, args []Val) bool {
+func (x *executor) timeIntrinsic(m *machine, fr *frame, in ssa.Instruction, res ssa.Value, key string, fn *ssa.Function, args []Val) bool {
 	c := x.c
 	st := m.st
 	if !strings.HasPrefix(key, "time.") {
@@ -80,6 +80,12 @@ func (x *executor) timeIntrinsic(m *machine, fr *frame, in ssa.Instruction, res 
 		case "Year", "Day":
 			requireUTC(t, "Time."+meth)
 			return ret(x.calFun("cal"+meth, x.dayIndex(c.timeNs(t))), intT)
+		case "Date":
+			requireUTC(t, "Time.Date")
+			day := x.dayIndex(c.timeNs(t))
+			sig := fn.Signature
+			x.setResult(fr, res, []Val{{t: x.calFun("calYear", day), typ: intT}, {t: x.calFun("calMonth", day), typ: sig.Results().At(1).Type()}, {t: x.calFun("calDay", day), typ: intT}})
+			return true
 		case "Month":
 			requireUTC(t, "Time.Month")
 			return ret(x.calFun("calMonth", x.dayIndex(c.timeNs(t))), res.Type())
